@@ -54,6 +54,9 @@ struct Case {
     label: &'static str,
     /// base index that initially holds the entry
     base: usize,
+    /// further bases that hold an entry of the same name and type (directories split across layers,
+    /// a file shadowed by an upper copy)
+    also: &'static [usize],
     /// does the backend that serves / is written to support the setter?
     supports: fn(TimeField) -> bool,
     /// MemoryFS serves the entry directly (no copy-up on append): append must preserve `created`
@@ -71,17 +74,21 @@ pub fn run_c19(ctx: &Ctx) -> i32 {
     let info = ctx.info("C19", "model_checking");
     let ov = Cfg::Ov(vec![Cfg::Mem, Cfg::Mem]);
     let mut cases = vec![
-        Case { cfg: Cfg::Mem, label: "Mem", base: 0, supports: all_supported, mem_based: true },
-        Case { cfg: Cfg::Phys, label: "Phys", base: 0, supports: phys_supported, mem_based: false },
-        Case { cfg: Cfg::alt(Cfg::Mem, "/Z"), label: "Alt(Mem,/Z)", base: 0, supports: all_supported, mem_based: true },
-        Case { cfg: Cfg::alt(Cfg::Phys, "/Z"), label: "Alt(Phys,/Z)", base: 0, supports: phys_supported, mem_based: false },
-        Case { cfg: ov.clone(), label: "Ov[Mem,Mem]/upper", base: 0, supports: all_supported, mem_based: true },
-        Case { cfg: ov.clone(), label: "Ov[Mem,Mem]/lower-only", base: 1, supports: all_supported, mem_based: false },
+        Case { cfg: Cfg::Mem, label: "Mem", base: 0, also: &[], supports: all_supported, mem_based: true },
+        Case { cfg: Cfg::Phys, label: "Phys", base: 0, also: &[], supports: phys_supported, mem_based: false },
+        Case { cfg: Cfg::alt(Cfg::Mem, "/Z"), label: "Alt(Mem,/Z)", base: 0, also: &[], supports: all_supported, mem_based: true },
+        Case { cfg: Cfg::alt(Cfg::Phys, "/Z"), label: "Alt(Phys,/Z)", base: 0, also: &[], supports: phys_supported, mem_based: false },
+        Case { cfg: ov.clone(), label: "Ov[Mem,Mem]/upper", base: 0, also: &[], supports: all_supported, mem_based: true },
+        Case { cfg: ov.clone(), label: "Ov[Mem,Mem]/lower-only", base: 1, also: &[], supports: all_supported, mem_based: false },
     ];
+    // the entry exists in the upper layer AND in a lower layer (the upper one is served)
+    cases.push(Case { cfg: ov.clone(), label: "Ov[Mem,Mem]/upper+lower", base: 0, also: &[1], supports: all_supported, mem_based: true });
+    cases.push(Case { cfg: Cfg::Ov(vec![Cfg::Mem, Cfg::Mem, Cfg::Mem]), label: "Ov[Mem,Mem,Mem]/upper+lowest", base: 0, also: &[2], supports: all_supported, mem_based: true });
     if ctx.tier == Tier::Thorough {
-        cases.push(Case { cfg: Cfg::Ov(vec![Cfg::Phys, Cfg::Phys]), label: "Ov[Phys,Phys]/upper", base: 0, supports: phys_supported, mem_based: false });
-        cases.push(Case { cfg: Cfg::Ov(vec![Cfg::Mem, Cfg::Mem, Cfg::Mem]), label: "Ov[Mem,Mem,Mem]/lowest-only", base: 2, supports: all_supported, mem_based: false });
-        cases.push(Case { cfg: Cfg::alt(ov.clone(), "/Z"), label: "Alt(Ov[Mem,Mem],/Z)/upper", base: 0, supports: all_supported, mem_based: true });
+        cases.push(Case { cfg: Cfg::Ov(vec![Cfg::Phys, Cfg::Phys]), label: "Ov[Phys,Phys]/upper+lower", base: 0, also: &[1], supports: phys_supported, mem_based: false });
+        cases.push(Case { cfg: Cfg::Ov(vec![Cfg::Phys, Cfg::Phys]), label: "Ov[Phys,Phys]/upper", base: 0, also: &[], supports: phys_supported, mem_based: false });
+        cases.push(Case { cfg: Cfg::Ov(vec![Cfg::Mem, Cfg::Mem, Cfg::Mem]), label: "Ov[Mem,Mem,Mem]/lowest-only", base: 2, also: &[], supports: all_supported, mem_based: false });
+        cases.push(Case { cfg: Cfg::alt(ov.clone(), "/Z"), label: "Alt(Ov[Mem,Mem],/Z)/upper", base: 0, also: &[], supports: all_supported, mem_based: true });
     }
     let ts = times();
     // setter sequences: every single setter, and all 6 orders of the three setters
@@ -109,7 +116,10 @@ pub fn run_c19(ctx: &Ctx) -> i32 {
                         }
                         runs += 1;
                         let node = if is_dir { Node::Dir } else { Node::File(b"abc".to_vec()) };
-                        let init: Init = vec![(case.base, vec![("/t".to_string(), node)])];
+                        let mut init: Init = vec![(case.base, vec![("/t".to_string(), node.clone())])];
+                        for extra in case.also {
+                            init.push((*extra, vec![("/t".to_string(), node.clone())]));
+                        }
                         let b = build(&case.cfg, Order::Asc, &init);
                         let p = b.root.join("t").unwrap();
                         let kind = if is_dir { "dir" } else { "file" };
